@@ -125,11 +125,11 @@ def build(word, emb, skip=0):
             if first == sub_start:
                 return None, 'first_is_sub'
             end = first
-        elif en == 'interior':
+        elif en in ('interior', 'interior_last'):
             cands = [v for v in visited if v != sub_start and v != first and v != start]
             if not cands:
                 return None, 'no_interior'
-            end = cands[0]
+            end = cands[0] if en == 'interior' else cands[-1]
         if kind in 'LA' and end == start:
             return None, 'zero_length_line_or_arc'
         if kind == 'L':
@@ -319,6 +319,26 @@ def through_start_family(maxlen):
     return out
 
 
+def revisit_family(maxlen):
+    """closed paths that come back to a vertex they already visited (the first interior one, or the one
+    before the last) and close from THERE: the start of the closing segment is a point the path has been
+    at before, so 'are we back at ...' tests in the serialiser can fire one segment early"""
+    out = []
+    kinds = [('L', None), ('C', 'generic'), ('Q', 'generic')]
+    for n in range(4, maxlen + 1):
+        for ks in itertools.product(kinds, repeat=n - 1):
+            for back in ('interior', 'interior_last'):
+                for closing in kinds:
+                    word = []
+                    for i, (k, c) in enumerate(ks):
+                        st = 'new' if i == 0 else 'cont'
+                        en = back if i == n - 2 else 'fresh'
+                        word.append((k, st, c, en, None))
+                    word.append((closing[0], 'cont', closing[1], 'sub', None))
+                    out.append(tuple(word))
+    return out
+
+
 def shards(tier, seed):
     tp = tier_params(tier, seed)
     out = []
@@ -334,6 +354,8 @@ def shards(tier, seed):
         for k in range(8):
             out.append({'emb': emb, 'set': 'family', 'first': k})
         out.append({'emb': emb, 'set': 'reflect2', 'first': 0})
+        if emb in ('E0', 'E1', 'E3'):
+            out += [{'emb': emb, 'set': 'revisit', 'first': k} for k in range(4)]
     return out
 
 
@@ -349,6 +371,12 @@ def run_shard(desc, tier, seed):
                 for n in (2, 3):
                     word = [(k, 'new', 'generic', 'fresh', None)] + [(k, 'cont', 'reflect2', 'fresh', None)] * (n - 1)
                     run_word(tuple(word), emb, acc, skip=skip)
+        return acc
+    if desc['set'] == 'revisit':
+        for idx, word in enumerate(revisit_family(5 if tier == 'quick' else 6)):
+            if idx % 4 == desc['first']:
+                run_word(word, emb, acc)
+                acc.seen('revisit_family')
         return acc
     if desc['set'] == 'family':
         fam = through_start_family(tp['family_len'] if desc['emb'] in ('E0', 'E1') else 4)
@@ -378,7 +406,7 @@ def run_word(word, emb, acc, opts_list=OPTIONS, skip=0):
 
 
 def expected_classes(tier):
-    return ['all_letters_both_cases_and_midpath_M_emitted']
+    return ['all_letters_both_cases_and_midpath_M_emitted', 'revisit_family']
 
 
 def finalize(acc):
@@ -406,7 +434,7 @@ def space(tier, seed):
     tp = tier_params(tier, seed)
     return {'templates_full': len(templates('full')), 'templates_reduced': len(templates('reduced')),
             'full_words_up_to': tp['full_len'], 'reduced_words_up_to': tp['reduced_len'],
-            'through_start_family_up_to': tp['family_len'], 'embeddings': tp['embs'],
+            'through_start_family_up_to': tp['family_len'], 'revisit_family_up_to': 5 if tier == 'quick' else 6, 'embeddings': tp['embs'],
             'options': 8, 'arc_pool': ARCS}
 
 
